@@ -218,7 +218,14 @@ def ker_consist(ctx):
         node = [n for rk, idx, v, n in pa['lla'].store_log if idx == (k,)][-1]
         try:
             c0, c1 = first_order(st)
-            e0, e1 = A.series1(A.subst(exp_lla.get((k,)), small), '@eps')
+            ref = exp_lla.get((k,))
+            if k == 1:
+                # a modulo-360 reduction of the reference longitude does not move the point:
+                # the kernel is compared with the unreduced value (GEO-ROUNDTRIP judges whether
+                # the reduction is shared by the difference maps)
+                from ..expr import strip_wraps
+                ref = strip_wraps(A, ref)
+            e0, e1 = A.series1(A.subst(ref, small), '@eps')
         except (Unsupported, ZeroDivisionError, ValueError) as e:
             raise AnalysisError('position update not analysable: %s' % e)
         ok = A.eq(c0, e0) and A.eq(c1, e1)
